@@ -394,7 +394,7 @@ void verif_run(verif::Args const& a, verif::Evidence& ev)
               "equals the documented rule. otsu: threshold_optimal on the 8/16-bit types -> outputs in {0,max}, separable by one threshold per channel, no sanitizer report. morph: symmetric random structuring elements 1/3/5 "
               "(int and float kernels), iterations 0..3 -> dilate/erode/opening/closing equal iterated max/min over the in-image neighbourhood; lattice laws on the library's output. median: k in {1,3,5,7} -> middle element of the "
               "sorted edge-replicated window. non-trivial: non-empty image (morph/median: and kernel larger than 1); distinct = all keys but the content seed.";
-    int n = th ? 300000 : 20000;
+    int n = th ? 900000 : 20000;
     verif::rc_search(ev, a, "thresh", n, 60, gen_thresh, run_thresh, [](Case const& c) { return c.get("w") > 0 && c.get("h") > 0; }, {"type", "w", "h", "kind", "guard", "fn", "tsel", "inverse", "zero", "defaults"});
     verif::rc_search(ev, a, "otsu", n / 2, 60, gen_otsu, run_otsu, [](Case const& c) { return c.get("w") > 0 && c.get("h") > 0; }, {"type", "w", "h", "kind", "guard", "inverse", "defaults"});
     verif::rc_search(ev, a, "morph", n / 4, 60, gen_morph, run_morph, [](Case const& c) { return c.get("w") > 0 && c.get("h") > 0 && c.get("half") > 0; }, {"type", "w", "h", "kind", "guard", "half", "iters", "fk"});
